@@ -263,7 +263,14 @@ def replay(cex):
         return False, "ok"
     sp = SequenceParameters(seq)
     problems = []
-    phs = sorted({min(14.0, max(0.0, cex["pH"])), min(14.0, max(0.0, cex["pH2"])), 0.0, 3.9, 4.1, 6.5, 7.0, 8.5, 10.0, 10.1, 12.5, 14.0, 2.0, 5.3, 9.2, 11.3, 13.1})
+    # history: the isoelectric point was asked for first (on this object and on another object of the same string)
+    try:
+        SequenceParameters(seq).get_isoelectric_point()
+        sp.get_isoelectric_point()
+    except Exception:
+        pass
+    mids = {7.0, 3.5, 10.5, 1.75, 5.25, 8.75, 12.25, 0.875, 2.625, 4.375, 6.125, 7.875, 9.625, 11.375, 13.125}
+    phs = sorted({min(14.0, max(0.0, cex["pH"])), min(14.0, max(0.0, cex["pH2"])), 0.0, 3.9, 4.1, 6.5, 7.0, 8.5, 10.0, 10.1, 12.5, 14.0, 2.0, 5.3, 9.2, 11.3, 13.1} | mids)
     prev = None
     for pH in phs:
         try:
@@ -287,3 +294,10 @@ def replay(cex):
 
 def finding_key(cex):
     return "%s:%s" % (cex["kind"], cex["seq"])
+
+
+def fallback(item):
+    if item["kind"] == "pI":
+        letters = list(TIT) + ["G"]
+        return [dict(kind="pI", seq="".join(letters[k] * c for k, c in enumerate(item["counts"])))]
+    return [dict(kind=item["kind"], seq=q, pH=7.0, pH2=7.0, getter="get_NCPR") for q in fallback_seqs(item, 12)]
